@@ -23,6 +23,7 @@ PROPS = {
         "legs": [
             native("c01_queue", ["secs=10"], ["secs=150"]),
             native("c01_queue", ["secs=5", "subscriber=1"], ["secs=60", "subscriber=1"], name="native-subscriber"),
+            native("c01_queue", ["secs=4", "subscriber=2"], ["secs=40", "subscriber=2"], name="native-filtered-subscriber"),
             miri("c01_queue", 16, 64, [0, 1, 2], [0, 1, 2, 3, 4, 5]),
             native("c01_queue", t=["secs=60", "lanes=3"], name="tsan", flavour="tsan", tiers=("thorough",)),
         ],
